@@ -5,6 +5,15 @@ ROOT = os.path.dirname(os.path.dirname(os.path.abspath(__file__)))
 
 # id -> (technique, level text, level note, design ref)
 CLAIMED = {
+ "C07": ("error-flow rule over the parameter parsers and BuildConstraints, parser-can-fail return-shape rule, key→constraint data-flow rule, receiver-state rule (a Check* method that stores to its receiver needs a pointer receiver and by-pointer registration), entry-guard rule for IsNavigation(), interface near-miss rule, and call-graph non-reachability of edits from constraint checks; the constraint types are discovered from the AddConstraint call sites",
+         "Decides that an invalid parameter value cannot be silently ignored (its error reaches the API's return and every parser is able to fail), that every recognised key installs a constraint built from its value, that constraints which count keep their count, that read filters exempt navigation, and that evaluating a filter cannot write. These are necessary conditions of 'exactly the defined projection'; the projection itself (depth counting, field-path matching, row windows, intersections of parameters) is a statement about runtime data and is not decided.",
+         "The set of constraint types is discovered (AddConstraint sites) and must not shrink below the hand-confirmed count; four types are exempt from the navigation guard and one dead near-miss method is exempt, each with a reason.",
+         "DESIGN.md §2 C07"),
+ "C08": ("codec symmetry rule between parseUrlPath (url.QueryUnescape sites) and the renderers Path.toBuffer / EncodeKey (one url.QueryEscape per key on the key's String()), loop-carried data-flow rule for the leading ../ steps of Find, %w error-identity rules for not-found / bad-request, request-literal rule for the navigation target, and a contradiction rule on Path.equalSegment",
+         "Decides that every component the path parser decodes is encoded by the renderers with the inverse escaper exactly once, that Find parses the remainder after ../ against the schema node reached, that unknown names and malformed shapes are reported with the defined error identities, that the steps walked are marked as navigation, and that path equality compares names. Not decided: that the selection returned is the addressed node, per-type key conversion, module-qualified lookup.",
+         "Anchored on node.parseUrlPath, Path.toBuffer, EncodeKey, Selection.Find/findSlice, Path.equalSegment.",
+         "DESIGN.md §2 C08"),
+
  "C05": ("dominance / must-not-reach analysis in Selection.set and get (pre-constraints before Node.Field, both veto outcomes bypass it), who-may-call for Node.Field, installation rule for fieldConstraints in Browser.baseConstraints and Selection.Split, constraint-inheritance rule for every Selection literal, loop-shape rule for restriction levels (no accepting return inside the loop over the typedef chain), dispatch-coverage rule of the checker, and the crash-class engine rooted at the restriction checker",
          "Decides on all paths that a leaf value cannot reach a node's Field callback without the field constraints having run and allowed it, that those constraints are installed on every selection through which writes flow (including the split side of *Into edits), that range/length levels of a typedef chain are conjunctive, and that checking cannot hit a panic or unchecked assertion (incl. min/max). Known findings: leafref/union restrictions are not resolved; multiple patterns are disjunctive (pinned by the suite). Not decided: acceptance of a particular value; enum/bits/identityref membership.",
          "The crash rule is scoped to package meta, package val and node/field_constraints.go because VTA resolves val.Value calls program-wide.",
